@@ -315,7 +315,8 @@ def r4(repo, res):
             continue
         if label in ("decomposition file", "standard output"):
             ok = not wv and [(w[4], w[5].solution, w[6]) for w in wd] == [(1, "A1a", out), (2, "A2a", out), (3, "A1b", out)] and text.startswith("#c1\tc2\n") \
-                and text.count("#Solution") == 3 and [w[1] for w in wd] == ["SAMPLE"] * 3
+                and [ln.split(":")[0] for ln in text.splitlines() if ln.startswith("#Solution")] == ["#Solution 1", "#Solution 2", "#Solution 3"] \
+                and [w[1] for w in wd] == ["SAMPLE"] * 3
             exp = "column header once, then `#Solution i` and the decomposition of every reported solution, numbered from 1, into that file; no VCF"
         elif label == "VCF file":
             ok = not wd and len(wv) == 1 and [m.solution for m in wv[0][4]] == reported and wv[0][5] is out and wv[0][1] == "SAMPLE" and not text
@@ -519,6 +520,11 @@ def r6(repo, res):
            expected="two solutions with two and three copies (known finding C12.R2 set aside: cells read as independent): column i carries the genotype, MA and MI of solution i's own copies",
            found="agrees" if okm else f"{cols}; header {headm[-2:]}",
            clause="the genotype of allele copy i at a variant is 1 exactly if that copy is reported to carry the variant", key="vcf-records:two-solutions")
+    gained = lambda: Rec(major="1", minor="1.002", added=[S2], missing=[])  # noqa  a copy reported as *1.002 +S2
+    scenarios.append(("a copy that gained a variant", [gained(), A3()],
+                      [["22", "151", "rs2", "T", "A", "1|0", "12", "*1,-", "*1.002,-"],
+                       ["22", "251", "rs1", "C", "T", "0|1", "11", "-,*3", "-,*3.001"],
+                       ["22", "351", "-", "G", "A", "1|1", "0", "*1,*3", "*1.002,*3.001"]]))
     lost = lambda: Rec(major="3", minor="3.001", added=[], missing=[S2])  # noqa  a copy reported as *3.001 without S2
     scenarios.append(("a copy that lost a variant of its definition", [A1(), lost()],
                       [["22", "151", "rs2", "T", "A", "1|0", "12", "*1,-", "*1.002,-"],
